@@ -40,15 +40,20 @@ Definition ce_ok (tagged : bool) (ce : cexprs) : bool :=
 
 Definition is_default (c : stmt) : bool := match c with SCase CDefault _ _ => true | _ => false end.
 
+Definition is_empty_default (c : stmt) : bool := match c with SCase CDefault [] false => true | _ => false end.
+
 (** The clause list: only case clauses, a default clause only in last position (negation of
-    switch-default-order), no fallthrough (not proved yet). *)
+    switch-default-order); fallthrough not in the last clause (Go rejects it) and, without a tag, not
+    into an empty default clause (yaegi crashes while compiling such a switch). *)
 Fixpoint shape_ok (tagged : bool) (cls : list stmt) : bool :=
   match cls with
   | [] => true
   | c :: rest =>
       match c with
       | SCase ce _ ft =>
-          ce_ok tagged ce && negb ft && (match rest with [] => true | _ => negb (is_default c) end) && shape_ok tagged rest
+          ce_ok tagged ce
+          && (negb ft || match rest with c' :: _ => tagged || negb (is_empty_default c') | [] => false end)
+          && (match rest with [] => true | _ => negb (is_default c) end) && shape_ok tagged rest
       | _ => false
       end
   end.
